@@ -49,13 +49,23 @@ func leftovers(w *coresim.World, f facts, ctx string) (out []vrt.Violation) {
 		fail("detector-not-freed", "active detectors after the only environment is gone: %v", d)
 	}
 	if !f.keepTasks {
-		// every task launched for the environment that the master still holds alive was asked to
-		// terminate, or is unowned and falls to the next cleanup
+		// "every task it ever owned has been asked to terminate": judged before anybody else cleans up
+		w.Poll()
+		for _, t := range w.M.AliveTasks() {
+			if _, owned := w.EverOwned[t.ID]; owned && (t.EnvID == f.envID || f.envID == "") && t.Kills == 0 {
+				seen := "not-active-in-core"
+				if w.EverActive[t.ID] {
+					seen = "active"
+				}
+				fail("task-never-asked-to-terminate:"+seen+":"+t.Class, "task %s (%s) was owned by %s, is alive at the master and was never sent a KILL (roster now: %v)", t.ID, t.Class, w.EverOwned[t.ID], w.TaskOwners())
+			}
+		}
+		// "tasks that never became owned stay unowned and fall to the next cleanup"
 		_ = w.Cleanup(nil)
 		vrt.Quiesce("after-cleanup")
 		for _, t := range w.M.AliveTasks() {
-			if (t.EnvID == f.envID || f.envID == "") && t.Kills == 0 {
-				fail("task-never-asked-to-terminate:"+t.Class, "task %s (%s) launched for %s is alive at the master, was never sent a KILL and is out of reach of CleanupTasks (roster: %v)", t.ID, t.Class, f.envID, w.TaskOwners())
+			if _, owned := w.EverOwned[t.ID]; !owned && (t.EnvID == f.envID || f.envID == "") && t.Kills == 0 {
+				fail("never-owned-task-out-of-reach-of-cleanup:"+t.Class, "task %s (%s) launched for %s never became owned, is alive at the master and the next CleanupTasks did not ask it to terminate (roster: %v)", t.ID, t.Class, f.envID, w.TaskOwners())
 			}
 		}
 	}
@@ -415,6 +425,86 @@ func hooksScenario() *vrt.Scenario {
 		}}
 }
 
+// ---- scenario 4: two destroy requests for one environment overlap ---------------------------
+
+func twiceScenario() *vrt.Scenario {
+	var w *coresim.World
+	var f facts
+	var desc, wf string
+	var errs [2]error
+	var done int
+	var triggers int
+	wfs := []string{"c06-2", "c06-hooks1"}
+	return &vrt.Scenario{Name: "destroy-twice", Prop: "C06", Doc: "two overlapping DestroyEnvironment requests for one environment (state x flags of each)", Cfg: cfg,
+		Setup: coresim.ResetStore, Quick: vrt.Bounds{Dev: 1, Seconds: 100}, Thorough: vrt.Bounds{Dev: 2, Seconds: 500},
+		DeadlockClause: "destroy-hangs", PanicClause: "panic",
+		NonTrivial: func(*vrt.Exec) bool { return done == 2 },
+		Body: func() {
+			f, done, triggers, errs = facts{}, 0, 0, [2]error{}
+			wf = wfs[vrt.ChooseFree(len(wfs), "workflow")]
+			state := vrt.ChooseFree(2, "state") // 0 CONFIGURED, 1 RUNNING (both requests allow it)
+			force := [2]bool{vrt.ChooseFree(2, "force1") == 1, vrt.ChooseFree(2, "force2") == 1}
+			m := coresim.NewMaster(agents()...)
+			m.HookTerminates = true
+			w = coresim.NewWorld(m)
+			id, _, err := w.Create(wf, nil)
+			if err != nil {
+				vrt.Logf("setup failed %v", err)
+				return
+			}
+			f = facts{envID: id}
+			m.OnCall = func(c *coresim.CallRec) {
+				if c.Type == "MESSAGE" && c.Detail == "TRIGGER" {
+					triggers++
+				}
+			}
+			if state == 1 {
+				w.Control(id, pb.ControlEnvironmentRequest_START_ACTIVITY)
+			}
+			var wg vrt.WaitGroup
+			wg.Add(2)
+			for i := 0; i < 2; i++ {
+				i := i
+				vrt.GoFG(fmt.Sprintf("destroy%d", i+1), func() {
+					errs[i] = w.Destroy(id, force[i], state == 1, false)
+					done++
+					wg.Done()
+				})
+			}
+			wg.Wait()
+			vrt.Quiesce("after-destroy")
+			vrt.Sleep(3 * time.Second)
+			vrt.Quiesce("after-destroy2")
+			desc = fmt.Sprintf("workflow=%s state=%d force=%v errs=[%v | %v] calls=%v hook-task-triggers=%d", wf, state, force, errs[0], errs[1], coresim.CallLog, triggers)
+			vrt.Logf("workflow=%s state=%d force=%v ok=[%v %v] calls=%v triggers=%d", wf, state, force, errs[0] == nil, errs[1] == nil, coresim.CallLog, triggers)
+		},
+		Check: func(x *vrt.Exec) (out []vrt.Violation) {
+			if x.Deadlock != "" || f.envID == "" || done != 2 {
+				return nil
+			}
+			// an environment can be destroyed once: the request that finds it gone (or going) cannot be honoured
+			if errs[0] == nil && errs[1] == nil {
+				out = append(out, vrt.Violation{Clause: "both-destroy-requests-succeeded", Detail: desc})
+			}
+			n := 0
+			for _, c := range coresim.CallLog {
+				if strings.Contains(c, "DESTROY") {
+					n++
+				}
+			}
+			if n > 1 || triggers > 1 {
+				out = append(out, vrt.Violation{Clause: "destroy-hooks-ran-twice", Detail: desc})
+			}
+			if errs[0] == nil || errs[1] == nil {
+				for _, v := range leftovers(w, f, desc) {
+					v.Clause += ":" + wf
+					out = append(out, v)
+				}
+			}
+			return
+		}}
+}
+
 func leakedCalls(x *vrt.Exec) (out []string) {
 	for _, l := range x.Leaked {
 		if strings.Contains(l, "callable/call.go") {
@@ -453,5 +543,5 @@ func main() {
 	}
 	coresim.GlobalSetup(specs...)
 	coresim.BreakFixture()
-	vrt.Main([]*vrt.Scenario{destroyScenario(), createScenario(), hooksScenario()})
+	vrt.Main([]*vrt.Scenario{destroyScenario(), createScenario(), hooksScenario(), twiceScenario()})
 }
